@@ -126,7 +126,7 @@ def run_tlc(module, cfg, workers=4, timeout=1800, name=None, env=None, extra=Non
     res["ok"] = ("Model checking completed. No error has been found." in txt) and p.returncode == 0
     if p.returncode == 124:
         raise ToolError("TLC timeout (%ss) on %s" % (timeout, module))
-    if not res["ok"] and not res["violated"] and "is violated" not in txt and "The postcondition has been violated" not in txt \
+    if not res["ok"] and not res["violated"] and "is violated" not in txt and "Postcondition" not in txt \
             and "Assumption" not in txt:
         raise ToolError("TLC failed on %s/%s (rc=%d):\n%s" % (module, cfg, p.returncode, tail_nonreplay(txt)))
     res["text"] = txt
@@ -173,6 +173,42 @@ def validate_trace(trace_module, cfg, trace_file, name=None, timeout=900, extra_
     r = run_tlc(trace_module, cfg, workers=1, timeout=timeout, name=name, env=env, deque=True, xmx="4g")
     accepted = r["ok"]
     return accepted, r
+
+
+def rejected_at(tlc_text):
+    m = re.search(r'"TRACE-REJECTED at line",\s*(\d+),\s*"event",\s*(.*?)>>\s+FALSE', tlc_text, re.S)
+    if m:
+        return int(m.group(1)), re.sub(r"\s+", " ", m.group(2))[:1500]
+    return None, None
+
+
+def trace_check(res, trace_module, cfg, trace_file, corrupt, label):
+    """Validate `trace_file` against the trace spec; then corrupt one recorded field with
+    `corrupt(events) -> events'` and require TLC to reject it (canary: the spec constrains more
+    than the length of the trace).  Returns (accepted, line, event_text)."""
+    ok, r = validate_trace(trace_module, cfg, trace_file, name="%s_%s" % (trace_module, label))
+    res.add_tlc(r)
+    n_events = sum(1 for _ in open(trace_file))
+    res.cov["trace_events"] = res.cov.get("trace_events", 0) + n_events
+    line, evtxt = (None, None)
+    if not ok:
+        line, evtxt = rejected_at(r["text"])
+        if line is None:
+            raise ToolError("trace validation of %s failed without a rejection line:\n%s" % (trace_file, tail_nonreplay(r["text"])))
+        return False, line, evtxt
+    events = [json.loads(l) for l in open(trace_file)]
+    bad = corrupt(events)
+    if bad is not None:
+        cpath = trace_file + ".canary"
+        with open(cpath, "w") as f:
+            for e in bad:
+                f.write(json.dumps(e) + "\n")
+        ok2, r2 = validate_trace(trace_module, cfg, cpath, name="%s_%s_canary" % (trace_module, label))
+        os.remove(cpath)
+        if ok2:
+            raise ToolError("canary: corrupted trace was ACCEPTED by %s - the trace specification is too weak" % trace_module)
+        res.cov["canary_rejected"] = res.cov.get("canary_rejected", 0) + 1
+    return True, None, None
 
 
 # --------------------------------------------------------------------------- known findings
